@@ -81,3 +81,9 @@ Theorem C02_var_std_prod_jvp_exact :
      is_derive (fun t => StatsProof.rprod (StatsProof.line x v t)) 0 (StatsProof.rprod_jvp x v (StatsProof.rprod x))).
 Proof. exact (conj StatsProof.var_jvp_exact (conj StatsProof.std_jvp_exact StatsProof.prod_jvp_exact)). Qed.
 Print Assumptions C02_var_std_prod_jvp_exact.
+
+Theorem C02_norm_jvp_exact :
+  forall x v, length x = length v -> 0 < StatsProof.rsumsq x ->
+    is_derive (fun t => sqrt (StatsProof.rsumsq (StatsProof.line x v t))) 0 (StatsProof.rnorm_jvp x v (sqrt (StatsProof.rsumsq x))).
+Proof. exact StatsProof.norm_jvp_exact. Qed.
+Print Assumptions C02_norm_jvp_exact.
